@@ -10,6 +10,8 @@ VARIABLES ci, doc, faults
 vars == <<ci, doc, faults>>
 
 UnkName == 9
+BlankTgt == 0 - 1          \* rendered as  target: ''
+PadBase == 0 - 100         \* PadBase - n rendered as  target: ' n<n> '  (blanks around an existing name)
 
 Init == ci \in DOMAIN Charts /\ doc = Export(Charts[ci]) /\ faults = <<>>
 
@@ -30,6 +32,9 @@ Next ==
            /\ Set(i, "trans", Append(doc.nodes[i].trans, DTr(UnkName, 1, 0))) /\ Fault("unknown_target", i, 0)
      \/ \E i \in Idx(doc) : \E k \in DOMAIN doc.nodes[i].trans :
            doc' = [doc EXCEPT !.nodes[i].trans[k].tgt = UnkName] /\ Fault("retarget_unknown", i, k)
+     \* a target that is empty, or an existing name with blanks around it, is not an existing state
+     \/ \E i \in Idx(doc) : \E k \in DOMAIN doc.nodes[i].trans : \E v \in {BlankTgt} \cup {PadBase - n : n \in Names} :
+           doc' = [doc EXCEPT !.nodes[i].trans[k].tgt = v] /\ Fault("target_blank_or_padded", i, k)
      \/ \E i \in Idx(doc) : IsHist(i) /\ i # 1
            /\ doc' = [doc EXCEPT !.nodes = [j \in Idx(doc) |->
                         IF doc.nodes[j].up = doc.nodes[i].up THEN [doc.nodes[j] EXCEPT !.sec = "p"]
